@@ -890,3 +890,110 @@ class GaussianCatLayout(Contract):
                 order = order and w.tag[1][k] == ("expand", ("w", k, layout), shape + (-1,)) and S.tag[1][k] == ("expand", ("S", k, layout), shape + (-1, -1))
         cl.append(("parts_aligned_to_one_layout_and_concatenated_in_order_along_dim_0", bool(order)))
         return cl
+
+
+# ==================================================================================================
+# C04 / C12: Gaussian._eager_subs_var -- renaming some inputs while other pairs are still to be applied
+# ==================================================================================================
+@register
+class GaussianEagerSubsVar(Contract):
+    """Gaussian._eager_subs_var(renamings, remaining pairs): the call denotes the SIMULTANEOUS substitution of all pairs.  Read
+    denotationally (the Gaussian an opaque function G of the values at its input positions, a value v an opaque function of the
+    values of the names it mentions, Subs(t, pairs) evaluating t in the environment updated by all pairs at once), at every
+    environment:
+        result  ==  G( position k:  env[new name]  if k is renamed;   v_k(env)  if (k, v_k) is a remaining pair;   env[k] otherwise )
+    -- in particular a remaining value that mentions the OLD name of a renamed input reads the caller's variable of that name,
+    not the renamed input, and one that mentions the NEW name reads the same variable the renamed input now reads.  Renaming
+    two inputs onto one name, or onto the name of an input that stays, raises ValueError.
+    structure bound: inputs i, x, y; renamings of i and / or x; 0..2 remaining pairs whose values mention an old name, a new
+    name, another input, a foreign name."""
+
+    props = ("C04", "C12")
+    file = "funsor/gaussian.py"
+    qualname = "Gaussian._eager_subs_var"
+    total = True
+    mutants = (
+        ("values substituted before the renaming (seeded C04_gaussian_rename_after_values)", "        rename = {k: v.name for k, v in subs}", "        if remaining_subs:\n            return Subs(Subs(self, remaining_subs), subs)\n        rename = {k: v.name for k, v in subs}"),
+        ("remaining pairs dropped", "        return Subs(var_result, remaining_subs) if remaining_subs else var_result", "        return var_result"),
+    )
+
+    def structures(self, tier):
+        renames = [(("i", "j"),), (("x", "z"),), (("i", "j"), ("x", "z")), (("i", "x"), ("x", "i")), (("i", "y"),), (("i", "k"), ("x", "k"))]
+        mention_sets = [("i",), ("j",), ("y",), ("q",), ("i", "j"), ("z", "x")]
+        for rn in renames:
+            yield "rename=%s,remaining=-" % (",".join("%s>%s" % r for r in rn)), (rn, ())
+            free_keys = [k for k in ("x", "y") if k not in dict(rn)]
+            for key in free_keys:
+                for ms in mention_sets:
+                    yield "rename=%s,remaining=%s:v(%s)" % (",".join("%s>%s" % r for r in rn), key, ",".join(ms)), (rn, ((key, ms),))
+            if len(free_keys) == 2 and tier != "quick":
+                for ms1 in mention_sets[:3]:
+                    for ms2 in mention_sets[:3]:
+                        yield "rename=%s,remaining=x:v(%s),y:v(%s)" % (",".join("%s>%s" % r for r in rn), ",".join(ms1), ",".join(ms2)), (rn, (("x", ms1), ("y", ms2)))
+
+    def build(self, p, st):
+        rn, rem = st
+
+        class VarV:
+            def __init__(self, name):
+                self.name = name
+
+        class Val:
+            def __init__(self, tag, mentions):
+                self.tag, self.mentions = tag, mentions
+
+        class GaussT:
+            def __init__(self, w, P, inputs, positions):
+                self.white_vec, self.prec_sqrt, self.inputs, self.positions = w, P, inputs, positions
+
+        class SubsT:
+            def __init__(self, arg, pairs):
+                self.arg, self.pairs = arg, tuple(pairs)
+
+        g = GaussT("w", "P", OrderedDict([("i", "Bint[3]"), ("x", "Real"), ("y", "Real")]), ("i", "x", "y"))
+
+        def Gaussian(w, P, inputs):
+            # the constructor keeps data and positions: input names are the only thing that changed
+            return GaussT(w, P, OrderedDict(inputs), g.positions)
+
+        subs = tuple((k, VarV(v)) for k, v in rn)
+        remaining = tuple((k, Val("v_" + k, ms)) for k, ms in rem)
+        ns = dict(OrderedDict=OrderedDict, Gaussian=Gaussian, Subs=SubsT, len=len)
+        return Ctx(args=(g, subs, remaining), namespace=ns, g=g, st=st, GaussT=GaussT, SubsT=SubsT, Val=Val, VarV=VarV)
+
+    def may_raise(self, ctx, etype):
+        rn, rem = ctx.st
+        new = [v for _, v in rn]
+        kept = [k for k in ctx.g.inputs if k not in dict(rn)]
+        conflict = len(set(new)) < len(new) or any(v in kept for v in new)
+        return conflict and etype == "ValueError"
+
+    def allow_vacuous(self, st):
+        rn, rem = st
+        new = [v for _, v in rn]
+        kept = [k for k in ("i", "x", "y") if k not in dict(rn)]
+        return len(set(new)) < len(new) or any(v in kept for v in new)
+
+    def ensures(self, ctx, result):
+        rn, rem = ctx.st
+        new = [v for _, v in rn]
+        kept = [k for k in ctx.g.inputs if k not in dict(rn)]
+        if len(set(new)) < len(new) or any(v in kept for v in new):
+            return [("conflicting_renaming_is_rejected", False)]
+
+        def den(t, env):
+            if isinstance(t, ctx.GaussT):
+                return ("G",) + tuple(env(k) for k in t.inputs)
+            if isinstance(t, ctx.SubsT):
+                pairs = dict(t.pairs)
+                return den(t.arg, lambda k, env=env, pairs=pairs: den(pairs[k], env) if k in pairs else env(k))
+            if isinstance(t, ctx.Val):
+                return ("V", t.tag) + tuple(env(m) for m in t.mentions)
+            if isinstance(t, ctx.VarV):
+                return env(t.name)
+            raise Unsupported("term %r" % (t,))
+
+        env0 = lambda k: ("atom", k)
+        rename, remd = dict(rn), dict(rem)
+        expect = ("G",) + tuple(env0(rename[k]) if k in rename else (("V", "v_" + k) + tuple(env0(m) for m in remd[k]) if k in remd else env0(k)) for k in ctx.g.positions)
+        return [("denotes_the_simultaneous_substitution", den(result, env0) == expect)]
